@@ -307,6 +307,13 @@ theorem encNumericU_eq (dd : DDesc) (nbits scale ref : Int) (s : St) (v : Val) (
       | ok f => simp only [St.write_ok, Except.map, St.afterWrite]
   | bytes b => rfl
 
+theorem encNumericU_badwidth (dd : DDesc) (nbits scale ref : Int) (s : St) (v : Val)
+    (h : s.curVal = some v) (hn : nbits ≤ 0) :
+    encNumericU dd nbits scale ref s = .error .other := by
+  simp only [St.curVal, curVals] at h
+  simp only [encNumericU, nextVal, nthVal, St.pushDesc, curVals, h, natWidth_nonpos nbits hn,
+    bind, Except.bind, pure, Except.pure]
+
 theorem missingPattern_ok (n : Nat) (h : n ≤ 64) : missingPattern n = .ok ((2 ^ n - 1 : Nat) : Int) := by
   have : ¬ (64 < n) := by omega
   simp only [missingPattern, this, if_false]
